@@ -29,6 +29,8 @@ __all__ = ["Calibration", "absmax_scale"]
 
 
 def _updated_scale(scale, new_scale, momentum):
+    # Scales are statistics: they must not be attached to the autograd graph
+    new_scale = new_scale.detach()
     if torch.all(scale == 1):
         return new_scale
     return momentum * scale + new_scale * (1.0 - momentum)
@@ -120,7 +122,7 @@ class Calibration(TorchFunctionMode):
             input = input[0]
             if isinstance(input, QBytesTensor):
                 # Just adopt the maximum scale of the input
-                module.input_scale = torch.max(input._scale)
+                module.input_scale = torch.max(input._scale).detach()
             else:
                 # Evaluate the best scale
                 input_scale = absmax_scale(input, module.activation_qtype)
